@@ -33,7 +33,14 @@ func (r *RuleEntity) AcceptInteger(val int64) error {
 }
 
 
-func (r *RuleEntity) Execute(dc *context.DataContext) (interface{}, error, bool) {
+func (r *RuleEntity) Execute(dc *context.DataContext) (res interface{}, err error, returned bool) {
+	//a panic raised while evaluating the rule (e.g. a non-boolean condition) becomes the rule's error
+	defer func() {
+		if p := recover(); p != nil {
+			res, returned = nil, false
+			err = errors.New(fmt.Sprintf("rule \"%s\" executed, panic recovered: %+v", r.RuleName, p))
+		}
+	}()
 	v, e, b := r.RuleContent.Execute(dc, make(map[string]reflect.Value))
 	if v == reflect.ValueOf(nil) {
 		return nil, e, b
